@@ -17,18 +17,12 @@ EXIT_OK, EXIT_VIOLATION, EXIT_HARNESS = 0, 1, 2
 
 
 def _load_known(prop_id):
-    paths = [os.path.join(env.VERIF, 'known_findings.json')]
-    frag = os.path.join(env.VERIF, 'known_findings.d')
-    if os.path.isdir(frag):
-        paths += [os.path.join(frag, f) for f in sorted(os.listdir(frag)) if f.endswith('.json')]
-    out = []
-    for path in paths:
-        if not os.path.exists(path):
-            continue
-        with open(path) as fh:
-            data = json.load(fh)
-        out += [f for f in data.get('findings', []) if f.get('property') == prop_id]
-    return out
+    path = os.path.join(env.VERIF, 'known_findings.json')
+    if not os.path.exists(path):
+        return []
+    with open(path) as fh:
+        data = json.load(fh)
+    return [f for f in data.get('findings', []) if f.get('property') == prop_id]
 
 
 def sig_matches(entry_sig, sig):
@@ -98,6 +92,46 @@ def run_replay_file(prop, path, known):
     return rp, out
 
 
+def _prepare_golden(prop, modname, key):
+    """Warm the numba cache for this property single-process into <key>/<ID>-golden (once per source hash)."""
+    import fcntl
+    gdir = os.path.join(env.NBCACHE, key, '%s-golden' % prop.ID)
+    done = os.path.join(gdir, '.done')
+    if os.path.exists(done):
+        return gdir
+    os.makedirs(gdir, exist_ok=True)
+    lock = os.open(os.path.join(gdir, '.lock'), os.O_CREAT | os.O_RDWR, 0o644)
+    try:
+        fcntl.flock(lock, fcntl.LOCK_EX)
+        if os.path.exists(done):
+            return gdir
+        t0 = time.time()
+        e = dict(os.environ, VERIF_CACHE_ROLE='%s-golden' % prop.ID,
+                 PYTHONPATH=env.VERIF + os.pathsep + os.environ.get('PYTHONPATH', ''))
+        code = ('from vlib import env; env.setup(); import importlib; m = importlib.import_module("props.%s"); m.warm()' % modname)
+        r = subprocess.run([env.PY, '-c', code], cwd=env.VERIF, env=e, stdin=subprocess.DEVNULL,
+                           stdout=subprocess.DEVNULL, stderr=subprocess.PIPE, text=True)
+        if r.returncode != 0:
+            print('note: warm() failed (rc=%d), shards will compile on their own: %s' % (r.returncode, r.stderr[-300:]), flush=True)
+            return None
+        with open(done, 'w') as fh:
+            fh.write('warmed in %.1fs\n' % (time.time() - t0))
+        print('numba cache warmed single-process in %.0fs' % (time.time() - t0), flush=True)
+        return gdir
+    finally:
+        fcntl.flock(lock, fcntl.LOCK_UN)
+        os.close(lock)
+
+
+def _seed_role_dir(golden, role_dir):
+    if os.path.isdir(role_dir) and os.listdir(role_dir):
+        return
+    try:
+        shutil.copytree(golden, role_dir, dirs_exist_ok=True, ignore=shutil.ignore_patterns('.done', '.lock', 'verif-locks'))
+    except Exception as e:  # noqa
+        print('note: could not seed %s from the golden cache: %s' % (role_dir, e), flush=True)
+
+
 def main(argv=None):
     ap = argparse.ArgumentParser(prog='check')
     ap.add_argument('prop')
@@ -127,6 +161,13 @@ def main(argv=None):
         return EXIT_HARNESS
     known = _load_known(prop.ID)
     from .result import HarnessError, safe_evaluate
+
+    # ---- numba cache preparation: single-writer 'golden' directory (module's warm()), copied to every process role --------
+    golden = None
+    if hasattr(prop, 'warm') and not args.replay:
+        golden = _prepare_golden(prop, modname, key)
+        if golden is not None:
+            _seed_role_dir(golden, os.environ['NUMBA_CACHE_DIR'])
 
     # ---- single replay ------------------------------------------------------------------------
     if args.replay:
@@ -207,6 +248,8 @@ def main(argv=None):
         out = os.path.join(work, 'shard%02d' % i)
         log = open(out + '.log', 'w')
         child_env['VERIF_CACHE_ROLE'] = '%s-shard%02d' % (prop.ID, i)
+        if golden is not None:
+            _seed_role_dir(golden, os.path.join(env.NBCACHE, key, child_env['VERIF_CACHE_ROLE']))
         p = subprocess.Popen([env.PY, '-u', '-m', 'vlib.shard', modname, args.tier, str(seed), str(i),
                               str(nshards), str(per[i]), out], cwd=env.VERIF, env=dict(child_env),
                              stdin=subprocess.DEVNULL, stdout=log, stderr=subprocess.STDOUT)
